@@ -25,8 +25,10 @@ def _calls(node):
 # ---------------------------------------------------------------------------------------------- R-PERUP
 def _perup_writer(fn, attr):
     """('ok'|'bad'|'unknown', why): self.<attr> rebuilt with exactly one entry per pattern of self.usage_patterns"""
+    # (the dict may be filled through a local that names it: `d = self.<attr>` … `d[up] = …`)
+    from ..astutil import expanded as _exp_pw
     stores = [n for n in ast.walk(fn) if isinstance(n, ast.Assign) and isinstance(n.targets[0], ast.Subscript)
-              and norm(n.targets[0].value) == f"self.{attr}"]
+              and norm(_exp_pw(n.targets[0].value, fn)) == f"self.{attr}"]
     inits = [n for n in ast.walk(fn) if isinstance(n, ast.Assign) and norm(n.targets[0]) == f"self.{attr}"]
     if not inits:
         return "bad", f"self.{attr} is no longer rebuilt from scratch (stale entries of patterns that left survive)"
@@ -2516,4 +2518,80 @@ def r_hournoise(E):
     if scanned < 200:
         raise AnalysisError(f"R-HOURNOISE scanned only {scanned} functions")
     res.floor = 3
+    return res
+
+
+# ---------------------------------------------------------------------------------------------- R-FLATONCE
+# collections that are legitimately concatenated without de-duplication: (class, property) -> reason
+FLAT_EXEMPT = {("ServerBase", "jobs"): "the jobs that point to the server directly and the jobs of the services installed on it "
+                                       "are disjoint lists (a job has one server link: the server or the service)"}
+
+
+def _flattenings(e):
+    out = []
+    for x in ast.walk(e):
+        if isinstance(x, ast.Call) and norm(x.func) == "sum" and (
+                any(isinstance(k.value, ast.List) for k in x.keywords if k.arg == "start")
+                or (len(x.args) > 1 and isinstance(x.args[1], ast.List))):
+            out.append(x)
+        elif isinstance(x, ast.Call) and norm(x.func).endswith("chain.from_iterable"):
+            out.append(x)
+        elif isinstance(x, ast.Call) and norm(x.func).split(".")[-1] == "chain" and len(x.args) >= 2:
+            out.append(x)
+        elif isinstance(x, (ast.ListComp, ast.GeneratorExp)) and len(x.generators) >= 2:
+            out.append(x)
+    return out
+
+
+@rule("R-FLATONCE")
+def r_flatonce(E):
+    pm = E.pm
+    res = RuleResult("R-FLATONCE", "a property of a model class that gathers objects along several paths (the usage patterns of "
+                                   "a job through each of its steps, the systems of a network through each usage pattern) "
+                                   "de-duplicates the *whole* gathered list: paths often lead to the same object, and whatever "
+                                   "is computed per element of the list would count it once per path")
+    # module-level functions that return their argument de-duplicated: def distinct(xs): return list(set(xs))
+    dedup_fns = set()
+    for mod, (rel, tree, src) in pm.modules.items():
+        for f in tree.body:
+            if isinstance(f, ast.FunctionDef) and len(f.args.args) == 1:
+                rets = [r.value for r in ast.walk(f) if isinstance(r, ast.Return) and r.value is not None]
+                p_ = f.args.args[0].arg
+                if len(rets) == 1 and any(isinstance(c, ast.Call) and norm(c.func) in ("set", "frozenset", "dict.fromkeys")
+                                          and c.args and norm(c.args[0]) == p_ for c in ast.walk(rets[0])):
+                    dedup_fns.add(f.name)
+
+    def deduplicated(x, stop):
+        p = getattr(x, "_parent", None)
+        while p is not None and p is not stop:
+            if isinstance(p, ast.Call) and (norm(p.func) in ("set", "frozenset", "dict.fromkeys") or norm(p.func) in dedup_fns):
+                return True
+            if isinstance(p, (ast.SetComp,)):
+                return True
+            p = getattr(p, "_parent", None)
+        return False
+    for cn in sorted(pm.classes):
+        if not pm.is_model(cn):
+            continue
+        for f in pm.own_methods(cn):
+            if not is_property(f):
+                continue
+            for r in [x for x in ast.walk(f) if isinstance(x, ast.Return) and x.value is not None]:
+                for fl in _flattenings(r.value):
+                    res.instances += 1
+                    if (cn, f.name) in FLAT_EXEMPT:
+                        res.notes.append(f"{cn}.{f.name}: exempt — {FLAT_EXEMPT[(cn, f.name)]}")
+                        continue
+                    if not deduplicated(fl, r):
+                        res.findings.append(Finding(
+                            "R-FLATONCE", f"{cn}.{f.name} :: gathered without de-duplication",
+                            f"{cn}.{f.name} gathers `{norm(fl)[:70]}` along several paths and returns it without "
+                            f"de-duplicating the whole list (a set() inside the paths does not help: two paths can lead to "
+                            f"the same object): the object is listed once per path, and what is computed per element — "
+                            f"occurrences per usage pattern, footprints per job — counts it several times", pm.path_of(cn),
+                            r.lineno, f"{cn}.{f.name}"))
+                    elif len(res.samples) < 4:
+                        res.samples.append({"property": f"{cn}.{f.name}", "gathers": norm(fl)[:70], "verdict": "de-duplicated"})
+    res.breakdown = {"dedup_functions": sorted(dedup_fns), "exempt": sorted(f"{a}.{b}" for a, b in FLAT_EXEMPT)}
+    res.floor = 10
     return res
